@@ -48,7 +48,8 @@ def run(tier, seed):
     r, scope, scope_path = gen_matrix(tier)
     by_sid = {s["sid"]: s for s in scope}
     cells = r["scn"]
-    cmds = [{"op": "ser", "id": i, "schema": {"nodes": by_sid[c["sid"]]["nodes"]}, "pres": c["pres"], "slow_seq": bool(c["slow"])}
+    cmds = [{"op": "ser", "id": i, "schema": {"nodes": by_sid[c["sid"]]["nodes"]}, "pres": c["pres"], "slow_seq": bool(c["slow"]),
+             "via": ("to_datum", "to_datum_vec", "owned")[i % 3]}          # the three public entry points of the datum serializer
             for i, c in enumerate(cells)]
     obs = common.run_harness(cmds)
     doubtful = []
@@ -248,7 +249,8 @@ def random_presentations(rng, n_events, rep):
             pres = codec.canon_pres(nodes, 1, v, rng.choice(["named", "rust"]))
             for _ in range(rng.choice([0, 1, 1, 1, 2])):
                 pres = mutate(rng, pres)
-            cmds.append({"op": "ser", "id": len(cmds), "schema": {"nodes": nodes}, "pres": pres, "slow_seq": rng.random() < 0.5})
+            cmds.append({"op": "ser", "id": len(cmds), "schema": {"nodes": nodes}, "pres": pres, "slow_seq": rng.random() < 0.5,
+                         "via": rng.choice(("to_datum", "to_datum_vec", "owned"))})
             sis.append(si + 1)
     obs = common.run_harness(cmds)
     events = [ser_event(si, c, o) for si, c, o in zip(sis, cmds, obs)]
